@@ -109,7 +109,7 @@ def _requirements(tier):
         "stop:timedelta": 100, "stop:date": 100,
         "with-listeners": 50,
         "numerical-stream-completed": 20, "state-compared:keplernum": 40,
-        "ephem:resampled-at-first-spacing:uneven-table": 5, "scenario:shuffle": 50, "scenario:interleave": 50, "scenario:listener-reuse": 30, "listener-reuse:dates-mode": 10, "listener-reuse:range-mode": 10, "scenario:inplace-edit": 30,
+        "ephem:resampled-at-first-spacing:uneven-table": 5, "scenario:shuffle": 50, "scenario:interleave": 50, "scenario:listener-reuse": 30, "listener-reuse:dates-mode": 10, "listener-reuse:range-mode": 10, "scenario:inplace-edit": 30, "reexpressed-in-place:frame": 10,
         "scenario:shared-propagator-sequential": 20, "scenario:shared-propagator-interleaved": 20,
         "scenario:edit-returned-state": 30, "returned-state-edit:values": 100, "returned-state-edit:form": 30, "returned-state-edit:frame": 30,
         "scenario:copy-made": 30, "scenario:cold-cache": 20, "scenario:generator-interleave": 20,
@@ -1179,7 +1179,7 @@ def history_case(ctx, job, idx, rng, st):
     if frames_job:
         scenarios = ["cold-cache", "cold-cache", "shuffle", "interleave"]
     if is_ephem:
-        scenarios = ["shuffle", "interleave", "listener-reuse", "generator-interleave", "edit-returned-state"]
+        scenarios = ["shuffle", "interleave", "listener-reuse", "generator-interleave", "edit-returned-state", "reexpressed-in-place"]
     if kind in ("none", "cw"):
         scenarios = [s for s in scenarios if s != "listener-reuse"]
     if numerical:
@@ -1317,6 +1317,42 @@ def history_case(ctx, job, idx, rng, st):
                                 it_.maneuvers.clear()
                     except Exception as exc:  # editing one's own copy failing is not this property's subject
                         ctx.count("returned-state-edit-raised:" + type(exc).__name__)
+    elif scen == "reexpressed-in-place":
+        # round-7 seed: an ephemeris that has already interpolated is re-expressed in place (frame / form setter), then asked
+        # again: it must answer like an equal ephemeris that received the same setter call without ever having been asked
+        how = rng.choice(["frame", "frame", "form"])
+        target = rng.choice(["MOD", "TOD", "TEME", "ITRF", "G50"]) if how == "frame" else rng.choice(["spherical", "cylindrical"])
+
+        def reexpress(o):
+            if how == "frame":
+                o.frame = target
+            else:
+                o.form = target
+
+        used = fresh()
+        for q in qs[2:2 + max(1, (len(qs) - 2) // 2)]:
+            if safe_answer(used, q, "before the ephemeris is re-expressed") is None:
+                return
+        try:
+            reexpress(used)
+        except Exception as exc:
+            ctx.count("reexpress-setup-raised:" + type(exc).__name__)
+            return
+        ctx.count("reexpressed-in-place:" + how)
+        for q in qs:
+            cold = fresh()
+            try:
+                reexpress(cold)
+            except Exception as exc:
+                ctx.count("reexpress-setup-raised:" + type(exc).__name__)
+                return
+            r = safe_answer(cold, q, "re-expressed, never asked before", guard_obj=False)
+            got = safe_answer(used, q, "re-expressed after earlier requests", guard_obj=False)
+            if r is None or got is None:
+                return
+            compare_answers(ctx, kind, spec, r, got, f"C08/{bk}-answers-of-a-reexpressed-ephemeris-depend-on-earlier-requests",
+                            dict(witness, setter=how, target=target, query=qdescr(q, clock)),
+                            f"ephemeris re-expressed in place ({how} = {target}) after earlier requests")
     elif scen == "listener-reuse":
         # the same listener objects over three consecutive iterations of one object and across another object
         iq = [q for q in qs if q[0] == "i"]
